@@ -279,7 +279,7 @@ fn run_check(args: &Args) -> i32 {
         }
     }
     vcommon::par::run(args.workers, 0..n_vtq, |i| {
-        if rep.violation_count() < 60 {
+        if rep.violation_count() < 60 + rep.get_count("stuck_multi_thread") {
             one_case(&rep, &make_case(args.seed, "vtq", i, tsan), selftest, false)
         }
     });
@@ -287,14 +287,14 @@ fn run_check(args: &Args) -> i32 {
     // multi-thread executions use several workers each: run fewer of them side by side
     let mt_par = (args.workers / 4).max(1);
     vcommon::par::run(mt_par, 0..n_mt, |i| {
-        if rep.violation_count() < 60 {
+        if rep.violation_count() < 60 + rep.get_count("stuck_multi_thread") {
             one_case(&rep, &make_case(args.seed, "mt", i, tsan), selftest, false)
         }
     });
     lap("mt", &rep);
     let n_focus = if tsan { 10 } else { args.bound("mtfocus", 40, 400) / reduce };
     vcommon::par::run(mt_par, 0..n_focus, |i| {
-        if rep.violation_count() < 60 {
+        if rep.violation_count() < 60 + rep.get_count("stuck_multi_thread") {
             one_case(&rep, &make_case(args.seed, "mtfocus", i, tsan), selftest, false)
         }
     });
